@@ -1,4 +1,4 @@
-# C03 defect 1a: an isolated node inflates MinFlowDecomp.get_lowerbound_k (the width is taken with demand 1 on the
+# C03 regression snippet (defect fixed in /repo) - former defect 1a: an isolated node inflates MinFlowDecomp.get_lowerbound_k (the width is taken with demand 1 on the
 # synthetic edges source->z, z->sink); on a single edge the search range range(2, |E|+1) is then empty.
 import sys; sys.path.insert(0, __import__("os").environ.get("FLOWPATHS_REPO", "/repo"))
 import networkx as nx, flowpaths as fp
@@ -6,7 +6,7 @@ G = nx.DiGraph(); G.add_edge("a", "b", flow=5); G.add_node("z")
 m = fp.MinFlowDecomp(G, flow_attr="flow", weight_type=int)
 print("lower bound:", m.get_lowerbound_k(), "(a decomposition with 1 path exists: a-b with weight 5)")
 print("solve():", m.solve())
-assert m.get_lowerbound_k() == 2 and m.is_solved() is False
+assert m.get_lowerbound_k() == 1 and m.is_solved() is True   # regression: fixed by 264fceb
 G2 = nx.DiGraph(); G2.add_edge("a", "b", flow=5); G2.add_edge("a", "c", flow=1); G2.add_node("z")
 m2 = fp.MinFlowDecomp(G2, flow_attr="flow", weight_type=int, optimization_options={"optimize_with_greedy": False})
 print("two edges + isolated node: lower bound", m2.get_lowerbound_k(), "minimum 2; solve()", m2.solve(),
